@@ -353,7 +353,16 @@ impl IgnoreFilter {
 			// Unwrap will always succeed because every node has an entry.
 			let ignores = trie_node.value().unwrap();
 
-			let match_ = if path.strip_prefix(&self.origin).is_ok() {
+			// The trie is keyed on strings, so it also yields nodes for sibling directories whose
+			// name is a textual prefix (`test/` for a path in `tests/`): those do not apply.
+			let in_node_dir = trie_node
+				.key()
+				.map_or(true, |key| path.starts_with(Path::new(key)));
+
+			let match_ = if !in_node_dir {
+				trace!(?path, ?search_path, "ignores are for a sibling directory, skipping");
+				Match::None
+			} else if path.strip_prefix(&self.origin).is_ok() {
 				trace!(?path, ?search_path, "checking against path or parents");
 				ignores.gitignore.matched_path_or_any_parents(path, is_dir)
 			} else {
